@@ -259,3 +259,97 @@ func isNextGetter(p *Prog, c *ssa.Call) bool {
 }
 
 func init() { register(ruleUnmarshalID, ruleFmtConst, ruleNextBlind) }
+
+// R-NUMCLASS (C02): a numeric literal prints as a numeric literal.
+//
+// The lexer has two classes of number: INT_P (digits only, read with
+// ParseInt) and NUMERIC_P (a '.', an exponent). The canonical text of a
+// NumericNode is what a float formatter writes, and the shortest text of an
+// integral double has neither: 4.0 prints `4` and is read back as the integer
+// 4 (`4.0/3` becomes an integer division), 1e19 prints twenty digits that
+// ParseInt rejects. Where the constructor of the numeric node stores the
+// formatter's output verbatim, nothing keeps the class.
+var ruleNumClass = &Rule{
+	Name: "R-NUMCLASS", NeedSSA: true,
+	Doc: "in the constructor of the numeric (non-integer) literal node the canonical text is not the verbatim output of a float formatter (json.Marshal of a float64, strconv.FormatFloat/AppendFloat, fmt %v/%g): the shortest text of an integral double has no '.' and no exponent, so the printed literal is lexed as an integer (other type, integer division) or, beyond int64, not at all",
+	Run: func(p *Prog) *RuleOut {
+		out := newOut("R-NUMCLASS")
+		num, _ := lookupNamed(p.Pkgs[pkgAST].Types, "NumericNode")
+		if num == nil {
+			out.undecided("NumericNode", "-", "", "anchor unresolved")
+			return out
+		}
+		n := 0
+		for fn := range p.AllFns {
+			if fnPkgPath(fn) != pkgAST || fn.Blocks == nil || fn.Signature.Results().Len() != 1 {
+				continue
+			}
+			pt, ok := fn.Signature.Results().At(0).Type().(*types.Pointer)
+			if !ok || pt.Elem() != types.Type(num) {
+				continue
+			}
+			// constructors: functions returning *NumericNode that parse a float
+			parses := false
+			for _, c := range p.allCalls(fn) {
+				if calleeQualified(&c.Call) == "strconv.ParseFloat" {
+					parses = true
+				}
+			}
+			if !parses {
+				continue
+			}
+			for _, b := range fn.Blocks {
+				for _, ins := range b.Instrs {
+					st, ok := ins.(*ssa.Store)
+					if !ok {
+						continue
+					}
+					fa, ok := st.Addr.(*ssa.FieldAddr)
+					if !ok {
+						continue
+					}
+					if bt, ok := st.Val.Type().Underlying().(*types.Basic); !ok || bt.Info()&types.IsString == 0 {
+						continue
+					}
+					// verbatim formatter output?
+					v := st.Val
+					for i := 0; i < 6; i++ {
+						switch x := v.(type) {
+						case *ssa.Convert:
+							v = x.X
+							continue
+						case *ssa.ChangeType:
+							v = x.X
+							continue
+						}
+						break
+					}
+					src := ""
+					switch x := v.(type) {
+					case *ssa.Extract:
+						if c, ok := x.Tuple.(*ssa.Call); ok && x.Index == 0 && calleeQualified(&c.Call) == "encoding/json.Marshal" {
+							src = "json.Marshal"
+						}
+					case *ssa.Call:
+						if q := calleeQualified(&x.Call); q == "strconv.FormatFloat" || q == "strconv.AppendFloat" {
+							src = q
+						}
+					}
+					if src == "" {
+						continue
+					}
+					n++
+					key := fmt.Sprintf("%s stores the text of a float verbatim in %s", fnName(fn), fieldName(fa))
+					out.viol(key, p.pos(st.Pos()), fnName(fn), "the canonical text of a numeric literal is the verbatim output of "+src+": for an integral value it has no '.' and no exponent, so `4.0` prints `4` and re-parses as an integer (`4.0/3` → `(4 / 3)`, an integer division) and `1e19` prints twenty digits that Parse rejects")
+				}
+			}
+		}
+		out.Counts["verbatim_float_texts"] = n
+		if n == 0 {
+			out.ok("numeric literals keep their class", "path/ast", "", "no constructor of the numeric node stores a float formatter's output verbatim")
+		}
+		return out
+	},
+}
+
+func init() { register(ruleNumClass) }
